@@ -27,6 +27,8 @@ pub struct Opts {
     pub env: Vec<(OsString, OsString)>,
     /// RLIMIT_STACK soft+hard in bytes (None = inherit; Some(u64::MAX) = unlimited)
     pub stack: Option<u64>,
+    /// RLIMIT_NOFILE soft+hard (None = inherit)
+    pub nofile: Option<u64>,
     pub uid: Option<u32>,
     pub stdin: Option<Vec<u8>>,
     pub timeout_s: u64,
@@ -51,6 +53,17 @@ pub fn run(program: &Path, args: &[&OsStr], cwd: &Path, o: &Opts) -> BinOut {
             c.pre_exec(move || {
                 let lim = libc::rlimit { rlim_cur: if s == u64::MAX { libc::RLIM_INFINITY } else { s }, rlim_max: if s == u64::MAX { libc::RLIM_INFINITY } else { s } };
                 if libc::setrlimit(libc::RLIMIT_STACK, &lim) != 0 {
+                    return Err(std::io::Error::last_os_error());
+                }
+                Ok(())
+            });
+        }
+    }
+    if let Some(n) = o.nofile {
+        unsafe {
+            c.pre_exec(move || {
+                let lim = libc::rlimit { rlim_cur: n, rlim_max: n };
+                if libc::setrlimit(libc::RLIMIT_NOFILE, &lim) != 0 {
                     return Err(std::io::Error::last_os_error());
                 }
                 Ok(())
